@@ -14,7 +14,7 @@ git apply "$D/patch.diff" || { echo "patch does not apply"; exit 2; }
 PYTHONPATH="$WT" timeout 1800 /venv/bin/python "$D/demo.py" > "$D/demo_patched.log" 2>&1; RC_PATCHED=$?
 PYTHONPATH="$WT" OMP_NUM_THREADS=4 timeout 5400 /venv/bin/python -m pytest -ra -q -p no:cacheprovider --timeout=900 --continue-on-collection-errors > "$D/tests_patched.log" 2>&1
 TAIL="$(tail -n 1 "$D/tests_patched.log")"
-FAILED="$(grep -E '^(FAILED|ERROR) ' "$D/tests_patched.log" | sed 's/ - .*//' | sort | tr '\n' ';')"
+FAILED="$(grep -E '^(FAILED|ERROR) tests/' "$D/tests_patched.log" | sed 's/ - .*//' | sort | tr '\n' ';')"
 python3 - "$D" "$RC_CLEAN" "$RC_PATCHED" "$TAIL" "$FAILED" <<'PY'
 import json, sys
 d, rc_clean, rc_patched, tail, failed = sys.argv[1:6]
